@@ -1015,3 +1015,12 @@ def replay(prop, path):
         return 1
     print("does not fail on the current tree")
     return 0
+
+
+NOT_BUILT = {
+    'C15': "builder model and check not built yet (work in progress, DESIGN.md 6/C15)",
+    'C18': "descriptor model and check not built yet (work in progress, DESIGN.md 6/C18)",
+    'C19': "DocumentList model and check not built yet (work in progress, DESIGN.md 6/C19)",
+}
+for _pid, _spec in REGISTRY.items():
+    _spec['level'] = 'proof' if _spec.get('obligations') else 'exploration'
